@@ -277,7 +277,7 @@ def _like_named(e, prefix, names):
     return out
 
 
-@rule("C07", "C07-S5", 6, "metadata, EOF and file-data fields are wired to the like-named sources; the EOF checksum is the file checksum of the very file the segments are read from")
+@rule("C07", "C07-S5", 6, "metadata, EOF and file-data fields are wired to the like-named sources; the EOF checksum is the file checksum of the very file the segments are read from", also=("C13",))
 def c07_s5(ctx):
     sfns = impl_and_closures(ctx, SEND)
     rfns = impl_and_closures(ctx, RECV)
@@ -1471,3 +1471,33 @@ def c07_s9(ctx):
             yield ok("C07-S9", key, at(f), "always true in the %s phase of an active transaction" % ph)
         else:
             yield bad("C07-S9", key, at(f), "has_pdu_to_send can answer %s in the %s phase: the step that sends the next data (and finally prepares the EOF) is never scheduled and no timer runs in that phase - the transaction hangs" % (bad_vals or "nothing", ph))
+
+
+# ================================================================ C07-S10: every received request is queued
+DROPPING_ADAPTORS = ("filter", "filter_map", "take_while", "skip_while", "take", "skip", "step_by", "map_while", "scan", "find", "find_map", "nth", "last", "dedup", "dedup_by", "dedup_by_key", "retain", "truncate", "pop", "remove", "swap_remove", "drain", "clear", "split_off")
+
+
+@rule("C07", "C07-S10", 1, "every segment request of a received NAK reaches the retransmission queue: between the PDU and the queue the list of requests passes through no adaptor that can drop one (filter, take_while, skip, dedup ...); a request is only split into segment-sized pieces")
+def c07_s10(ctx):
+    f = ctx.one("C07-S10", "SendTransaction::process_pdu")
+    fns = [f] + ctx.prog.closures_of(f)
+    n = 0
+    found = False
+    for g in fns:
+        eb = ExprBuilder(ctx.prog, g)
+        for b, t in g.all_calls():
+            e = eb.call(b, t)
+            if e[0] != "call" or not e[3]:
+                continue
+            a0 = expr_str(e[3][0])
+            if "segment_requests" not in a0:
+                continue
+            found = True
+            last = (callee_name(e) or "").split("::")[-1]
+            if last in DROPPING_ADAPTORS and not ("ops::Range" in a0 and last == "step_by"):
+                n += 1
+                yield bad("C07-S10", "process_pdu:segment_requests.%s" % last + ("#%d" % n if n > 1 else ""), at(g, t["span"]["line"]), "the received requests pass through %s before they are queued: a request it rejects (wholly, although part of it may lie inside the file) is never answered" % last)
+    if not found:
+        raise Anchor("C07-S10", "the received NAK's segment_requests in SendTransaction::process_pdu")
+    if n == 0:
+        yield ok("C07-S10", "process_pdu:segment_requests", at(f), "no dropping adaptor between the received list and the queue")
